@@ -1077,6 +1077,9 @@ func condString(v ssa.Value) string {
 func valName(v ssa.Value) string {
 	switch x := v.(type) {
 	case *ssa.Const:
+		if x.Value == nil {
+			return "nil"
+		}
 		return x.Value.String()
 	case *ssa.Call:
 		if c := x.Call.StaticCallee(); c != nil {
